@@ -15,6 +15,8 @@ cryptographic primitives), every key (all lengths / bit sizes / private-public c
   allowlist_first_jws / _jwt, allowlist_before_finder_jws / _jwt, *_accepted_alg_listed
   guessAlg_binding, jwt_jwk_binding
   jws_accept_binding, jwt_accept_binding   the whole property for the stock JWK key finders
+  headerString_exact, jwt_one_decode, jws_one_decode, jwt_raw_accept_binding, jwt_jwks_binding
+                            from the header BYTES: one decode feeds allow-list and key lookup
   corollaries in the property's own words (symmetric_only_under_hmac, hmac_only_symmetric,
   ec_key_own_curve, undersized_*_refused, none_refuses_every_key, kw_symmetric_exact_size,
   ecdhes_same_curve under the oracle law EcdhLaw)
@@ -817,6 +819,105 @@ theorem jwt_accept_binding (o : Oracle) (av : AlgVerifier) (k : Key) (alg : Stri
   obtain ⟨name, c, hl, hk, h1, h2⟩ := jwt_jwk_binding o k alg key hf
   obtain ⟨hm, hu⟩ := sig_key_binding_verify o c k key n _ hk hv
   exact ⟨hok, name, c, hl, h1, h2, hm, hu⟩
+
+/-! ## one decode: the allow-list and the key lookup read the same header value -/
+
+/-- header member names are matched exactly: a member under any *other* name — a case variant
+    ("Alg", "ALG"), a Unicode-fold variant ("Kid" for "kid"), anything — does not influence what
+    `GetString(name)` returns -/
+theorem headerString_exact (name k : String) (v : Wire) (kvs : List (String × Wire)) (h : k ≠ name) :
+    headerString name (.obj ((k, v) :: kvs)) = headerString name (.obj kvs) := by
+  have hne : ¬ name = k := fun e => h e.symm
+  simp [headerString, Wire.get?, Wire.asObj, Wire.lookup, hne]
+
+/-- of two members with the *same* name the decoded object holds one (encoding/json keeps the last);
+    whichever it is, `GetString` sees the first binding of the decoded association list only -/
+theorem headerString_single (name : String) (v : Wire) (kvs : List (String × Wire)) :
+    headerString name (.obj ((name, v) :: kvs)) = headerString name (.obj [(name, v)]) := by
+  simp [headerString, Wire.get?, Wire.asObj, Wire.lookup]
+
+/-- **jwt_one_decode.**  If `Parser.Parse` accepts, there is *one* decoded header view `h` of the
+    header bytes such that the allow-list allowed `h.alg`, the key finder was run on that same `h`,
+    and the key it returned verified the signature.  (The model decodes once; see Binding.lean.) -/
+theorem jwt_one_decode (o : Oracle) (av : AlgVerifier) (find : HdrView → PO SigningKey) (raw : Bytes)
+    (n : Nat) (claims : PO Unit) (h : (jwtParseRaw av find raw n claims).run o = .ok ()) :
+    ∃ hv, (decodeHeaderView raw).run o = .ok hv ∧ av.ok hv.alg = true ∧
+      ∃ key, (find hv).run o = .ok key ∧ (verify key n).run o = .ok () := by
+  unfold jwtParseRaw at h
+  obtain ⟨hv, hd, h'⟩ := PO.run_bind_eq_ok o _ _ _ h
+  obtain ⟨hok, key, hf, hver⟩ := allowlist_first_jwt o av _ hv.alg n claims h'
+  exact ⟨hv, hd, hok, key, hf, hver⟩
+
+/-- **C03 end to end from the header bytes, JWT.**  Stock finder with key `k`: acceptance implies
+    the algorithm the allow-list was asked about (`hv.alg`) is the one `guessAlg` resolved the key's
+    algorithm from, and `k` is bound to the resolved algorithm. -/
+theorem jwt_raw_accept_binding (o : Oracle) (av : AlgVerifier) (k : Key) (raw : Bytes) (n : Nat)
+    (claims : PO Unit)
+    (h : (jwtParseRaw av (fun hv => jwtJWKKeyFinder k hv.alg) raw n claims).run o = .ok ()) :
+    ∃ hv, (decodeHeaderView raw).run o = .ok hv ∧ av.ok hv.alg = true ∧ ∃ name c, sigLookup name = some c ∧
+      (k.alg ≠ "" → name = k.alg ∧ (hv.alg = "" ∨ hv.alg = k.alg)) ∧ (k.alg = "" → name = hv.alg ∧ hv.alg ≠ "") ∧
+      VerifyMaterial c k ∧ canUseFor k opVerify = true := by
+  obtain ⟨hv, hd, hok, key, hf, hver⟩ := jwt_one_decode o av _ raw n claims h
+  obtain ⟨name, c, hl, hk, h1, h2⟩ := jwt_jwk_binding o k hv.alg key hf
+  obtain ⟨hm, hu⟩ := sig_key_binding_verify o c k key n _ hk hver
+  exact ⟨hv, hd, hok, name, c, hl, h1, h2, hm, hu⟩
+
+/-- the JWKS finder: the key is the first key of the set filed under the header's kid — the kid of
+    the same decoded view whose alg the allow-list saw -/
+theorem jwt_jwks_binding (o : Oracle) (set : List (String × Key)) (hv : HdrView) (sk : SigningKey)
+    (h : (jwtJWKSKeyFinder set hv).run o = .ok sk) :
+    hv.kid ≠ "" ∧ ∃ k, lookupName hv.kid set = some k ∧ (jwtJWKKeyFinder k hv.alg).run o = .ok sk := by
+  unfold jwtJWKSKeyFinder at h
+  by_cases hk : hv.kid = ""
+  · simp [hk] at h
+  · simp only [hk, ↓reduceIte] at h
+    cases hl : lookupName hv.kid set with
+    | none => simp [hl] at h
+    | some k => simp only [hl] at h; exact ⟨hk, k, rfl, h⟩
+
+theorem decodeEntries_ok (o : Oracle) (raws : List RawSig) (ents : List SigEntry)
+    (h : (decodeEntries raws).run o = .ok ents) :
+    ∀ (i : Nat) (e : SigEntry), ents[i]? = some e → ∃ r, raws[i]? = some r ∧ (decodeSigEntry r).run o = .ok e := by
+  induction raws generalizing ents with
+  | nil =>
+    simp [decodeEntries] at h; subst h; intro i e he; simp at he
+  | cons r rest ih =>
+    unfold decodeEntries at h
+    obtain ⟨e0, h0, h'⟩ := PO.run_bind_eq_ok o _ _ _ h
+    obtain ⟨es, h1, h2⟩ := PO.run_bind_eq_ok o _ _ _ h'
+    simp at h2; subst h2
+    intro i e he
+    cases i with
+    | zero => simp at he; subst he; exact ⟨r, by simp, h0⟩
+    | succ j => simp at he; obtain ⟨r', hr', hd⟩ := ih es h1 j e he; exact ⟨r', by simpa using hr', hd⟩
+
+/-- **jws_one_decode.**  If parse-then-`Verify` accepts signature `i`, its entry was decoded once
+    from the `i`-th raw signature, and the allow-list, the key finder and the verification all acted
+    on that one decoded entry: its algorithm (`SigEntry.alg`) is non-empty and allowed, the finder ran
+    on this entry, its key verified. -/
+theorem jws_one_decode (o : Oracle) (av : AlgVerifier) (find : SigEntry → PO SigningKey)
+    (raws : List RawSig) (i : Nat) (h : (jwsVerifyRaw av find raws).run o = .ok i) :
+    ∃ r e, raws[i]? = some r ∧ (decodeSigEntry r).run o = .ok e ∧ e.alg ≠ "" ∧ av.ok e.alg = true ∧
+      ∃ key, (find e).run o = .ok key ∧ (verify key e.sigLen (.int i)).run o = .ok () := by
+  unfold jwsVerifyRaw at h
+  obtain ⟨ents, hd, h'⟩ := PO.run_bind_eq_ok o _ _ _ h
+  obtain ⟨e, he, hne, hok, key, hf, hv⟩ := allowlist_first_jws o av find ents i h'
+  obtain ⟨r, hr, hde⟩ := decodeEntries_ok o raws ents hd i e he
+  exact ⟨r, e, hr, hde, hne, hok, key, hf, hv⟩
+
+section
+/-- an oracle under which the header bytes decode (as encoding/json decodes
+    `{"alg":"PS256","Alg":"RS256"}` into a map) to an object with both members -/
+def hdrOracle : Oracle := fun q =>
+  if q.name = "json.decodeMap" then .obj [("Alg", .str "RS256"), ("alg", .str "PS256")] else .bool true
+
+-- a case variant of "alg" does not reach the allow-list: PS256 is what is checked and what the key is built for
+example : (jwtParseRaw (.allowed ["RS256"]) (fun hv => jwtJWKKeyFinder (KeyKind.toKey (.rsaPub 2048)) hv.alg)
+    [] 256 (pure ())).run hdrOracle = .err "alg-not-allowed" := rfl
+example : (jwtParseRaw (.allowed ["PS256"]) (fun hv => jwtJWKKeyFinder (KeyKind.toKey (.rsaPub 2048)) hv.alg)
+    [] 256 (pure ())).run hdrOracle = .ok () := rfl
+example : "Alg" ≠ "alg" ∧ "ALG" ≠ "alg" ∧ "Kid" ≠ "kid" ∧ "Kid" ≠ "kid" := by decide
+end
 
 /-! ## the bindings are exact (converse direction) -/
 
